@@ -39,6 +39,8 @@ OFNUM = z3.Function('OFNUM', z3.RealSort(), VL)           # a tracked number rea
 MINOBJ = z3.Function('MINOBJ', z3.IntSort(), VL)          # model.min_objective_value() = max(abs_tol, rel_tol * objbeg) of model version v
 KOPT = z3.Function('KOPT', z3.IntSort(), z3.IntSort())     # model.kopt of model version v (slot of the incumbent record)
 POSV = z3.Function('POS', VL, z3.BoolSort())              # v > 0.0 on an opaque float
+LTV = z3.Function('LT', VL, VL, z3.BoolSort())            # a < b on opaque floats (uninterpreted: only congruence is used)
+ISNANV = z3.Function('ISNAN', VL, z3.BoolSort())          # np.isnan(v) of an opaque scalar
 UNSC = z3.RecFunction('UNSC', VL, z3.IntSort(), VL)       # columns 0..i-1 un-scaled, in order
 _j, _i = z3.Const('j_', VL), z3.Int('i_')
 z3.RecAddDefinition(UNSC, [_j, _i], z3.If(_i <= 0, _j, COLDIV(UNSC(_j, _i - 1), _i - 1)))
@@ -66,6 +68,10 @@ class NanTestV(Unk):
     def __init__(self, v):
         Unk.__init__(self, 'isnan(values)')
         self.v = v
+
+    def truth(self):
+        # np.isnan(v) used directly as a condition (v a scalar): the uninterpreted NaN test of that value
+        return ISNANV(self.v)
 
 
 class EvalVals(Unk):
@@ -98,7 +104,9 @@ class LedgerDomain(ParamsMixin, Domain):
                              # "the best objective value found so far is finite": nothing in this domain establishes it (floats are havoc); C10 (f)
                              'objfinite': 'bool',
                              # C04 (ii): the pending trial point was accepted as an improvement (ratio > 0); the model version whose incumbent record was offered to save_point
-                             'better': 'bool', 'savedver': 'int'}
+                             'better': 'bool', 'savedver': 'int',
+                             # hard-restart merge: the best-so-far objective before a run, the objective the run returned, "a restarted run has happened"
+                             'objprev': 'val', 'objnew': 'val', 'ran': 'bool'}
         fs = self.field_shapes
         fs[('Controller', 'nf')] = 'int'
         fs[('Controller', 'nx')] = 'int'
@@ -122,7 +130,7 @@ class LedgerDomain(ParamsMixin, Domain):
         self.builtins['remove_scaling'] = lambda eng, n, a, k, st: RS(a[0]) if isval(a[0]) else UNK
         self.spec_funcs = {'UNSC': UNSC, 'COLDIV': COLDIV, 'EX': EX, 'ER': ER, 'EO': EO, 'ENS': ENS, 'EEN': EEN, 'EJ': EJ, 'EJN': EJN, 'RS': RS, 'ABS': ABS, 'SUBBASE': SUBBASE, 'ROW': ROW, 'MEANV': MEANV, 'REC_X': REC_X, 'REC_R': REC_R, 'REC_NS': REC_NS,
                            'REC_EN': REC_EN, 'NPT': NPT,
-                           'SUMSQ': SUMSQV, 'HVAL': HVAL, 'ADDV': ADDV, 'LEQ': LEQV, 'OFNUM': OFNUM, 'MINOBJ': MINOBJ, 'KOPT': KOPT, 'POS': POSV}
+                           'SUMSQ': SUMSQV, 'HVAL': HVAL, 'ADDV': ADDV, 'LEQ': LEQV, 'OFNUM': OFNUM, 'MINOBJ': MINOBJ, 'KOPT': KOPT, 'POS': POSV, 'LT': LTV, 'ISNAN': ISNANV}
 
     def name_shape(self, name):
         if name == 'ratio':
@@ -276,8 +284,12 @@ class LedgerDomain(ParamsMixin, Domain):
         if op == '>' and isval(a) and node is not None and isinstance(node, ast.Compare) and len(node.comparators) == 1 and \
                 isinstance(node.comparators[0], ast.Constant) and node.comparators[0].value in (0, 0.0) and not isinstance(node.comparators[0].value, bool):
             return POSV(a)
-        if op == '<=' and isval(a) and (isval(b) or isint(b) or isreal(b)):
-            return LEQV(a, b if isval(b) else OFNUM(z3.ToReal(b) if isint(b) else b))
+        if op in ('<', '<=') and isval(a) and (isval(b) or isint(b) or isreal(b)):
+            b = b if isval(b) else OFNUM(z3.ToReal(b) if isint(b) else b)
+            # IEEE-754 facts about the two uninterpreted orders: a comparison with a NaN is false, and a < b implies a <= b
+            st.assume(z3.And(z3.Implies(LTV(a, b), z3.And(z3.Not(ISNANV(a)), z3.Not(ISNANV(b)), LEQV(a, b))),
+                             z3.Implies(LEQV(a, b), z3.And(z3.Not(ISNANV(a)), z3.Not(ISNANV(b))))))
+            return LTV(a, b) if op == '<' else LEQV(a, b)
         return Domain.compare(self, op, a, b, st, node)
 
     def is_same(self, a, b, st):
